@@ -636,16 +636,23 @@ def rule_extract(ctx):
     # routing of the extension payloads: the assignment to each list happens in the arm of the like-named extension variant
     want = {"sni": "SNI", "alpn": "ALPN", "signature_algorithms": "SignatureAlgorithms", "elliptic_curves": "EllipticCurves",
             "elliptic_curve_point_formats": "EcPointFormats"}
-    locs = {b.local_name(l): l for l in range(len(b.locals)) if b.local_name(l)}
+    from ..engine import guards as GV
     for name, var in want.items():
-        l = locs.get(name)
-        if l is None:
-            ctx.cannot("R7", "extract:route:" + name, "local `%s` not found" % name, ctx.loc(b))
+        # every assignment that can supply Signature.<name>, whatever carries the value on its way (a local of its own, a field of an
+        # accumulator struct that is destructured before the constructor)
+        if name not in s["r"]["fields"]:
+            ctx.cannot("R7", "extract:route:" + name, "Signature has no field `%s`" % name, ctx.loc(b))
+            continue
+        op_ = s["r"]["ops"][s["r"]["fields"].index(name)]
+        pl_ = op_.get("m") or op_.get("c")
+        asg = GV.assignments_of(P, b, S, pl_) if pl_ is not None else []
+        if not asg:
+            ctx.cannot("R7", "extract:route:" + name, "no assignment supplying Signature.%s found" % name, ctx.loc(b))
             continue
         arms = set()
         numeric = []
-        for (db, dj, full) in S.defs().get(l, []):
-            for c in Q.canon_conds(P, T.dom_conds(b, S, db)):
+        for (_val, conds_, (db, dj)) in asg:
+            for c in conds_:
                 if c[0] == "variant" and c[3] and c[2] in set(want.values()) | {"SupportedVersions", "KeyShare"}:
                     arms.add(c[2])
                 # the payload is taken whenever the extension carries one: nothing about its contents (a name type, a length, a
@@ -673,7 +680,8 @@ def rule_extension_wire_type(ctx):
     n = 0
     for blk, t in Q.calls(b, "Vec::<T, A>::push"):
         a = Q.call_args(b, S, blk, t)
-        if not any(x[0] == "local" and x[2] == "extensions" for x in T.walk(a[0])) and b.local_name(TB._root_local(b, (t["args"][0].get("m") or t["args"][0].get("c"))["l"])) != "extensions":
+        recv_ = t["args"][0].get("m") or t["args"][0].get("c")
+        if not any(x[0] == "field" and x[2] == "extensions" for x in T.walk(a[0])) and b.local_name(TB._root_local(b, recv_["l"])) != "extensions":
             continue
         v = a[1]
         if not T.has_call(v, "TlsExtensionType") and not any(x[0] == "downcast" and x[2] == "Grease" for x in T.walk(v)):
